@@ -11,7 +11,7 @@ import copy
 
 import z3
 
-from . import frontend
+from . import frontend, sym
 from .sym import (DTYPE_RANGE, EngineError, V, VBool, VDict, VFunc, VInt, VMat, VModule, VNone, VObj, VOpaque, VOpt,
                   VReal, VSeq, VSet, VStr, VTuple, fresh_name, fresh_value, from_term, is_concrete_false,
                   is_concrete_true, parse_kind, sort_of, to_term)
@@ -138,6 +138,7 @@ class Interp:
     def verify(self, contract):
         """Generate the obligations of one function under contract."""
         self.cur = contract
+        sym.STRING_MODE[0] = contract.get('strings', 'theory')
         fn = frontend.load_function(contract['module'], contract['qualname'])
         self.fn = fn
         self.dropped.extend(f"{contract['qualname']}: {d}" for d in fn.dropped)
@@ -281,9 +282,17 @@ class Interp:
         live = [st]
         done = []
         anchors = [a[6:] for a in (self.cur.get('asserts') or {}) if a.startswith('after:')]
+        summ = self.cur.get('summarize') or {}
         for s in stmts:
             nxt = []
             for x in live:
+                sm = None
+                if summ and not isinstance(s, (ast.For, ast.While, ast.If)):
+                    txt0 = self.src(s)
+                    sm = next((v for a, v in summ.items() if txt0.startswith(a)), None)
+                if sm is not None:
+                    nxt.extend(self.exec_summarized(s, x, sm))
+                    continue
                 for y, sig in self.exec_stmt(s, x):
                     if sig is None:
                         if anchors and not isinstance(s, (ast.For, ast.While, ast.If)):
@@ -298,6 +307,27 @@ class Interp:
             if not live:
                 break
         return [(x, None) for x in live] + done
+
+    def exec_summarized(self, s, st, sm):
+        """Statement-level contract: run the statement, prove the listed facts about `var`, then forget how the
+        value was computed (drop the stub axioms introduced by the statement, havoc var) and keep only the facts.
+        Sound: assumptions are only dropped, and every kept fact has just been proved."""
+        n0 = len(st.pc)
+        outs = self.exec_stmt(s, st)
+        if len(outs) != 1 or outs[0][1] is not None:
+            raise EngineError('summarize: statement forks or exits')
+        y = outs[0][0]
+        for label, e in sm['facts']:
+            self.oblige(y, f"summary[{sm['var']}].{label}", self.spec(y, e), text=e)
+        del y.pc[n0:]
+        v = y.lookup(sm['var'])
+        nv = self.fresh_like(v, sm['var'] + '@sum', y)
+        if isinstance(nv, VSeq) and nv.arr is None:
+            raise EngineError('summarize: empty kind-less sequence')
+        y.env[sm['var']] = nv
+        for label, e in sm['facts']:
+            self.assume(y, self.spec(y, e))
+        return [y]
 
     def is_inert_call(self, node):
         if not isinstance(node, ast.Call):
@@ -610,8 +640,11 @@ class Interp:
             self.assume(st, n >= 0)
             self.assume(st, z3.ForAll([i], z3.Implies(z3.And(i >= 0, i < n), z3.And(mem[enum[i]], rank(enum[i]) == i)),
                                       patterns=[enum[i]]))
+            pats = [rank(x)]
+            if z3.is_const(mem) and mem.decl().kind() == z3.Z3_OP_UNINTERPRETED:
+                pats.append(mem[x])
             self.assume(st, z3.ForAll([x], z3.Implies(mem[x], z3.And(rank(x) >= 0, rank(x) < n, enum[rank(x)] == x)),
-                                      patterns=[rank(x)]))
+                                      patterns=pats))
             ek = it.ek
             return n, (lambda k: from_term(enum[k], ek))
         if isinstance(it, VDict):
@@ -889,6 +922,8 @@ class Interp:
         if isinstance(v, VReal):
             return v.t != 0
         if isinstance(v, VStr):
+            if v.opaque:
+                return v.t != sym.pstr_lit('')
             return z3.Length(v.t) > 0
         if isinstance(v, VNone):
             return z3.BoolVal(False)
@@ -1011,13 +1046,16 @@ class Interp:
         parts = []
         for p in e.values:
             if isinstance(p, ast.Constant):
-                parts.append(z3.StringVal(p.value))
+                parts.append(VStr(p.value).t)
             else:
                 v = self.eval(p.value, st)
                 parts.append(self.to_str(v, st).t)
         if not parts:
             return VStr('')
-        return VStr(z3.Concat(*parts) if len(parts) > 1 else parts[0])
+        r = parts[0]
+        for q in parts[1:]:
+            r = sym.PCONCAT(r, q) if r.sort() == sym.PSTR else z3.Concat(r, q)
+        return VStr(r)
 
     def to_str(self, v, st):
         if isinstance(v, VStr):
@@ -1156,7 +1194,7 @@ class Interp:
         if isinstance(b, VBool) and not isinstance(op, (ast.BitAnd, ast.BitOr)):
             b = VInt(to_term(b, 'int'))
         if isinstance(a, VStr) and isinstance(b, VStr) and isinstance(op, ast.Add):
-            return VStr(z3.Concat(a.t, b.t))
+            return VStr(sym.PCONCAT(a.t, b.t) if a.opaque else z3.Concat(a.t, b.t))
         if isinstance(a, VStr) and isinstance(op, ast.Mod):
             raise EngineError('% string formatting')
         if isinstance(a, VSeq) and a.flavor == 'array' or isinstance(b, VSeq) and b.flavor == 'array':
@@ -1326,6 +1364,9 @@ class Interp:
             x, y = (to_term(a, 'int'), to_term(b, 'int')) if both_int else (to_term(a, 'real'), to_term(b, 'real'))
             return VBool({ast.Lt: x < y, ast.LtE: x <= y, ast.Gt: x > y, ast.GtE: x >= y}[type(op)])
         if isinstance(a, VStr) and isinstance(b, VStr):
+            if a.opaque:
+                le, ge = sym.PLE(a.t, b.t), sym.PLE(b.t, a.t)
+                return VBool({ast.Lt: z3.And(le, a.t != b.t), ast.LtE: le, ast.Gt: z3.And(ge, a.t != b.t), ast.GtE: ge}[type(op)])
             return VBool({ast.Lt: a.t < b.t, ast.LtE: a.t <= b.t, ast.Gt: b.t < a.t, ast.GtE: b.t <= a.t}[type(op)])
         raise EngineError(f'comparison {type(op).__name__} on {a!r}, {b!r}')
 
@@ -1388,6 +1429,8 @@ class Interp:
         if type(a) is not type(b):
             if isinstance(a, (VStr, VTuple, VInt, VReal, VBool)) and isinstance(b, (VStr, VTuple, VInt, VReal, VBool)):
                 return z3.BoolVal(False)
+        if isinstance(a, VStr) and isinstance(b, VStr) and a.opaque != b.opaque:
+            raise EngineError('mixing opaque and theory strings')
         raise EngineError(f'equality on {a!r}, {b!r}')
 
     def contains(self, cont, x, st, txt=''):
@@ -1398,13 +1441,34 @@ class Interp:
         if isinstance(cont, VSeq):
             if cont.arr is None:
                 return z3.BoolVal(False)
-            i = z3.Int(fresh_name('i'))
-            return z3.Exists([i], z3.And(i >= 0, i < cont.length, self.equal(from_term(cont.arr[i], cont.ek), x, st)))
+            return self.seq_member(cont, x, st)
         if isinstance(cont, VTuple):
             return z3.Or(*[self.equal(y, x, st) for y in cont.items]) if cont.items else z3.BoolVal(False)
         if isinstance(cont, VStr) and isinstance(x, VStr):
-            return z3.Contains(cont.t, x.t)
+            return sym.PCONTAINS(cont.t, x.t) if cont.opaque else z3.Contains(cont.t, x.t)
         raise EngineError(f'`in` on {cont!r}')
+
+    def seq_member(self, cont, x, st):
+        """`x in L` for a sequence: a membership predicate with an index witness keyed by the *value*
+        (MEM(x) <=> exists i < len. L[i] == x).  Keyed-by-value skolems close the chains that nested
+        exists/forall membership facts would otherwise open (matching loops)."""
+        cont = self.stubs.materialize(self, st, cont)
+        key = (cont.arr.get_id(), z3.simplify(cont.length).get_id())
+        tbl = self.__dict__.setdefault('_mem_tbl', {})
+        if key not in tbl:
+            n = len(tbl)
+            es = sort_of(cont.ek)
+            name = f'mem{n}_{cont.arr.decl().name()}'
+            MEM = z3.Function(name, es, z3.BoolSort())
+            IDX = z3.Function('idx_' + name, es, z3.IntSort())
+            i = z3.Int('i_' + name)
+            xx = z3.Const('x_' + name, es)
+            self.speclib.axiom(name + '.intro', z3.ForAll([i], z3.Implies(z3.And(i >= 0, i < cont.length), z3.And(
+                MEM(cont.arr[i]), IDX(cont.arr[i]) >= 0, IDX(cont.arr[i]) < cont.length)), patterns=[cont.arr[i]]), name)
+            self.speclib.axiom(name + '.elim', z3.ForAll([xx], z3.Implies(MEM(xx), z3.And(
+                IDX(xx) >= 0, IDX(xx) < cont.length, cont.arr[IDX(xx)] == xx)), patterns=[MEM(xx)]), name)
+            tbl[key] = MEM
+        return tbl[key](to_term(x, cont.ek))
 
     def e_Attribute(self, e, st):
         # dotted stub name (np.zeros, itertools.combinations, ...)
